@@ -381,7 +381,8 @@ class Verdict:
                 # hangs, panics, unexplained driver states count against whatever is being explored
                 b = dict(b, label=own_prefix + b["label"][4:])
             desc = _desc_of(b)
-            if not b["label"].startswith(own_prefix) and desc.get("kind") in self.own_kinds:
+            if not b["label"].startswith(own_prefix) and any(
+                    str(desc.get("kind", "")).startswith(k) for k in self.own_kinds):
                 b = dict(b, label=own_prefix + b["label"].replace(":", "/"))
             if not b["label"].startswith(own_prefix):
                 self.notes.append("%s (scen %s)" % (b["label"], b.get("scen")))
